@@ -35,7 +35,7 @@ func VerifC12Watch() {
 	var insW []wkey
 	// PRESET: concrete pre-state shapes that need 3+ keys (inner node with a
 	// leaf and one/two children below a node4 root), then N1 symbolic inserts
-	for _, k := range [][]string{nil, {"a", "ab", "x"}, {"ab", "abc", "abd", "x"}, {"a", "ab", "abc", "x"}, nil, {"ab", "ac", "x"}}[vnd.Param("PRESET", 0)] {
+	for _, k := range [][]string{nil, {"a", "ab", "x"}, {"ab", "abc", "abd", "x"}, {"a", "ab", "abc", "x"}, nil, {"ab", "ac", "x"}, {"a1", "a2", "a3", "a4", "a5", "x"}}[vnd.Param("PRESET", 0)] {
 		txn.Insert([]byte(k), 5)
 		model.Put([]byte(k), 5)
 	}
@@ -124,11 +124,16 @@ func VerifC12Watch() {
 	vnd.Assert(vnd.Not(vnd.IsClosed(rootW)), "C12.root.open-before-notify")
 
 	switch vnd.IntRange("end", 0, 2) {
-	case 0: // commit + notify
-		newTree := txn.Commit()
-		vnd.Assert(vnd.Not(vnd.IsClosed(rootW)), "C12.root.open-after-commit-before-notify")
-		vnd.Assert(vnd.Not(vnd.IsClosed(getW)), "C12.get.open-after-commit-before-notify")
-		txn.Notify()
+	case 0: // commit + notify (either order: Commit();Notify() or CommitAndNotify())
+		var newTree Tree[uint64]
+		if vnd.Bool("notify-first") {
+			newTree = txn.CommitAndNotify()
+		} else {
+			newTree = txn.Commit()
+			vnd.Assert(vnd.Not(vnd.IsClosed(rootW)), "C12.root.open-after-commit-before-notify")
+			vnd.Assert(vnd.Not(vnd.IsClosed(getW)), "C12.get.open-after-commit-before-notify")
+			txn.Notify()
+		}
 		vnd.Assert(vnd.Iff(vnd.IsClosed(rootW), anyChange), "C12.root.closed-iff-changed")
 		vnd.Assert(vnd.Implies(getChanged, vnd.IsClosed(getW)), "C12.get.closed-on-change")
 		vnd.Assert(vnd.Implies(prefChanged, vnd.IsClosed(prefW)), "C12.prefix.closed-on-change")
@@ -145,6 +150,14 @@ func VerifC12Watch() {
 		vnd.Assert(vnd.Not(vnd.IsClosed(w2)), "C12.get.newtree.open")
 		_, w3 := newTree.Prefix(pp)
 		vnd.Assert(vnd.Not(vnd.IsClosed(w3)), "C12.prefix.newtree.open")
+		// follow-up: channels handed out by the new tree close on the next change
+		rootW2 := newTree.RootWatch()
+		_, absW2, _ := newTree.Get([]byte{0xfe, 0xfe, 0xfe})
+		t3 := newTree.Txn()
+		t3.Insert([]byte{0xfe, 0xfe, 0xfe}, 1)
+		t3.CommitAndNotify()
+		vnd.Assert(vnd.IsClosed(rootW2), "C12.followup.root-watch-not-closed")
+		vnd.Assert(vnd.IsClosed(absW2), "C12.followup.get-watch-not-closed")
 		vnd.Cover("C12.committed")
 	case 1: // commit without notify: nothing may be closed
 		txn.Commit()
